@@ -117,7 +117,7 @@ Fixpoint c10_run (s : st) (ops : list op) : bool :=
 Fixpoint plain_line (l : line) : bool :=
   match l with
   | LVal _ | LLoad _ _ | LOwned _ _ | LReadFile _ _ | LReadDir _ | LFail | LPanic => true
-  | LTry l' => plain_line l'
+  | LTry l' | LCatch l' => plain_line l'
   | LCached _ _ | LNoRec _ | LThread _ | LInsert _ _ => false
   end.
 
